@@ -47,6 +47,9 @@ pub fn addr_str(a: SocketAddr) -> String {
 pub fn key_creds(k: &str) -> MessageIntegrityCredentials {
     match k {
         "3" => LongTermCredentials::new("user".into(), "pass:word".into(), "realm".into()).into(),
+        // two passwords that differ only in a non-ASCII character whose low byte is the other's ASCII letter
+        "1" => ShortTermCredentials::new("p\u{161}ssword".to_string()).into(),
+        "2" => ShortTermCredentials::new("password".to_string()).into(),
         _ => ShortTermCredentials::new(format!("key{k}")).into(),
     }
 }
